@@ -868,9 +868,14 @@ class ManifestRecursiveLoader:
                         # never rename onto something that exists:
                         # another Manifest of this directory or
                         # a file that just happens to have the name
-                        if (new_mpath in self.loaded_manifests
-                                or os.path.lexists(os.path.join(
-                                    self.root_directory, new_mpath))):
+                        if new_mpath in self.loaded_manifests:
+                            continue
+                        try:
+                            os.lstat(os.path.join(self.root_directory,
+                                                  new_mpath))
+                        except FileNotFoundError:
+                            pass
+                        else:
                             continue
 
                         # do the rename!
